@@ -20,8 +20,8 @@ Completeness of the builders (converse of R2): vocabulary.
                     Since repo fix fe68100 (checked row counters of unions) a default is one ROW of that variant:
                     a `None` of a `FixedSizeList(_, m)` (size 1) sends `m` defaults to its child, which would
                     take `m` units of the head room of a union reachable by defaults below it (through structs /
-                    fixed-size lists) — `defOK` of a fixed-size list therefore also requires `noDefUF` of its
-                    child: no union below it receives defaults.  (Unions below lists, maps, dictionaries, or as
+                    fixed-size lists) — `defOK` of a fixed-size list of size `m > 1` therefore also requires
+                    `noDefUF` of its child: no union below it receives defaults.  (Unions below lists, maps, dictionaries, or as
                     variants / struct fields outside nullable fixed-size lists are not restricted.)
 -/
 namespace SaModel.Build
@@ -208,11 +208,11 @@ end
 mutual
 /-- `serialize_default` is supported by the builder of this type (all of its parts that receive it), at the price of
 at most one unit of head room per call: one default / `None` of a `FixedSizeList(_, m)` sends `m` defaults to the
-child, so no union may be reachable by defaults below a fixed-size list (`noDefUF`; repo fix fe68100: every default
-row of a union counts against `i32::MAX` rows of its first real variant) -/
+child, so no union may be reachable by defaults below a fixed-size list of size `m > 1` (`noDefUF`; repo fix fe68100:
+every default row of a union counts against `i32::MAX` rows of its first real variant) -/
 def defOK : DataType → Metadata → Bool
   | .null, md => !isUnknownVariant .null md
-  | .fixedSizeList f _, _ => defOKF f && noDefUF f
+  | .fixedSizeList f m, _ => defOKF f && (decide (m ≤ 1) || noDefUF f)
   | .struct fs, _ => defOKFs fs
   | .union ufs _, _ => decide (UFields.length ufs ≤ 128) && defOKFirst ufs
   | _, _ => true
@@ -234,7 +234,7 @@ unions have at most 128 variants -/
 def total : DataType → Bool → Metadata → Bool
   | .list f, _, _ => totalF f
   | .largeList f, _, _ => totalF f
-  | .fixedSizeList f _, n, _ => totalF f && (!n || (defOKF f && noDefUF f))
+  | .fixedSizeList f m, n, _ => totalF f && (!n || (defOKF f && (decide (m ≤ 1) || noDefUF f)))
   | .map (.mk _ (.struct (.cons kf (.cons vf _))) _ _) _, _, _ => totalF kf && totalF vf
   | .struct fs, n, _ => totalFs fs && (!n || defOKFs fs)
   | .union ufs _, _, _ => decide (UFields.length ufs ≤ 128) && totalUs ufs
